@@ -132,6 +132,22 @@ def run(ctx):
                 ok = any(ab.block_dominates(c, bi) for c in closes)
                 ctx.ob("R10-close", k, ok, t["sp"], "closes the pending transaction before reading history")
     ctx.floor("AutoCommit history getter call sites", n, 4)
+    check_mapper(ctx, f)
+    # a change rebuilt from stored ops starts at the counter of the first op that was actually collected for it; the start_op kept in the
+    # change-graph metadata is an estimate after a load (max_op - max(deps' max_op)), exact only for non-isolated histories
+    ctx.rule("R12-startop", "provenance: StoredChange.start_op in OpEncoderStrategy::finish derives from the collected columns (into_change_cols), not only from the metadata parameter")
+    fb = ctx.body("automerge::op_set2::change::collector::OpEncoderStrategy::<'a>::finish")
+    aggs = [(bi, st) for bi, blk in enumerate(fb.blocks) for st in blk["st"] if st["rv"]["k"] == "Agg" and (st["rv"].get("adt") or "").endswith("storage::change::Change") and "start_op" in st["rv"].get("fields", [])]
+    ctx.floor("StoredChange constructions in OpEncoderStrategy::finish", len(aggs), 1)
+    for bi, st in aggs:
+        rv = st["rv"]
+        pv = fb.provenance(rv["o"][rv["fields"].index("start_op")], through_calls=True)
+        from_cols = any(norm_fn(c).endswith("OpEncoderStrategy::into_change_cols") for c in pv.callees())
+        ctx.ob("R12-startop", "OpEncoderStrategy::finish|start_op from the collected ops", from_cols, st["sp"], "derives from into_change_cols(..).start_op" if from_cols else
+               "start_op of the rebuilt change comes from the change-graph metadata only: after a load that value is an estimate, so a change made in an isolated transaction is rebuilt with other bytes and another hash")
+
+
+def check_mapper(ctx, f):
     # a change rebuilt from the op set hashes to the original only if its actor table is rebuilt from scratch: the collector shares one
     # ActorMapper across all changes, so the per-change encode step resets it before an encoder's finish() fills it
     ctx.rule("R12-mapper", "must-pass-through: ActorMapper::reset dominates every {VecEncoder, ProgressiveEncoder}::finish that receives a mapper parameter")
@@ -158,15 +174,3 @@ def run(ctx):
             ctx.ob("R12-mapper", k, ok, t["sp"], "mapper.reset() first" if ok else
                    "the shared ActorMapper is handed to the encoder without being reset: actors seen while encoding an earlier change leak into this change's actor table (other_actors), so the rebuilt change has different bytes and a different hash")
     ctx.floor("encoder finish calls receiving the shared mapper", n_fin, 2)
-    # a change rebuilt from stored ops starts at the counter of the first op that was actually collected for it; the start_op kept in the
-    # change-graph metadata is an estimate after a load (max_op - max(deps' max_op)), exact only for non-isolated histories
-    ctx.rule("R12-startop", "provenance: StoredChange.start_op in OpEncoderStrategy::finish derives from the collected columns (into_change_cols), not only from the metadata parameter")
-    fb = ctx.body("automerge::op_set2::change::collector::OpEncoderStrategy::<'a>::finish")
-    aggs = [(bi, st) for bi, blk in enumerate(fb.blocks) for st in blk["st"] if st["rv"]["k"] == "Agg" and (st["rv"].get("adt") or "").endswith("storage::change::Change") and "start_op" in st["rv"].get("fields", [])]
-    ctx.floor("StoredChange constructions in OpEncoderStrategy::finish", len(aggs), 1)
-    for bi, st in aggs:
-        rv = st["rv"]
-        pv = fb.provenance(rv["o"][rv["fields"].index("start_op")], through_calls=True)
-        from_cols = any(norm_fn(c).endswith("OpEncoderStrategy::into_change_cols") for c in pv.callees())
-        ctx.ob("R12-startop", "OpEncoderStrategy::finish|start_op from the collected ops", from_cols, st["sp"], "derives from into_change_cols(..).start_op" if from_cols else
-               "start_op of the rebuilt change comes from the change-graph metadata only: after a load that value is an estimate, so a change made in an isolated transaction is rebuilt with other bytes and another hash")
